@@ -92,11 +92,12 @@ type Explorer struct {
 	solverT   time.Duration
 	maxSamples int
 	witnesses []Sample // candidates for native witness replay
+	start     time.Time
 }
 
 func NewExplorer(seed int64, maxPaths int, deadline time.Time) *Explorer {
 	e := &Explorer{findings: map[string]*Finding{}, reached: map[string]int{}, funcs: map[string]bool{}, stubs: map[string]bool{},
-		rng: rand.New(rand.NewSource(seed)), maxPaths: maxPaths, deadline: deadline, maxSamples: 6}
+		rng: rand.New(rand.NewSource(seed)), maxPaths: maxPaths, deadline: deadline, maxSamples: 6, start: time.Now()}
 	e.cond = sync.NewCond(&e.mu)
 	return e
 }
@@ -121,7 +122,9 @@ func (e *Explorer) pop() *WorkItem {
 			return nil
 		}
 		if n := len(e.stack); n > 0 {
-			if e.maxPaths > 0 && e.Paths >= e.maxPaths || time.Now().After(e.deadline) {
+			// once violations are in hand there is no point in exhausting a (possibly exploded) path space
+			early := len(e.findings) > 0 && time.Since(e.start) > 90*time.Second
+			if e.maxPaths > 0 && e.Paths >= e.maxPaths || time.Now().After(e.deadline) || early {
 				e.stopped = true
 				e.Inconcl = append(e.Inconcl, fmt.Sprintf("INCOMPLETE: budget exhausted with %d work items left (paths=%d)", n, e.Paths))
 				e.cond.Broadcast()
